@@ -214,11 +214,24 @@ func init() {
 		},
 	})
 	regProp(&propDef{
-		id:   "C14",
-		gen:  func(seed uint64, th bool) *Plan { return genDbPlan(seed, th) },
-		chk:  newSeqChecker,
-		rule: "2-4 connections (some opened late, some reconnecting) SELECT among databases 0,1,2,15 and invalid indexes, run data commands, transactions, FLUSHDB/FLUSHALL, DBSIZE, KEYS, CLIENT SETNAME/GETNAME, taking turns as the tape decides; after each command the reply and the stored state of all 16 databases are compared with the model; at the end every connection writes a marker into its selected database and an observer reads every database; non-trivial = a flush was issued while another connection had the flushed database selected, and at least 2 databases held keys; distinct = distinct scheduler event sequence",
+		id: "C14",
+		gen: func(seed uint64, th bool) *Plan {
+			if seed%5 == 4 {
+				return genConcPlan("C14", seed, th) // class twodb
+			}
+			return genDbPlan(seed, th)
+		},
+		chk: func(p *Plan) Checker {
+			if p.Class == "twodb" {
+				return newLinChecker(p)
+			}
+			return newSeqChecker(p)
+		},
+		rule: "2-4 connections (some opened late, some reconnecting) SELECT among databases 0,1,2,15 and invalid indexes, run data commands, transactions, FLUSHDB/FLUSHALL, DBSIZE, KEYS, CLIENT SETNAME/GETNAME, taking turns as the tape decides; after each command the reply and the stored state of all 16 databases are compared with the model; at the end every connection writes a marker into its selected database and an observer reads every database; non-trivial = a flush was issued while another connection had the flushed database selected, and at least 2 databases held keys; class twodb (1 of 5 runs): 3-4 connections work truly concurrently in database 0 and in one other database that does not exist yet (several of them SELECT it at the same moment), with transactions and FLUSHALL/FLUSHDB in between, checked for linearizability incl. a read-back of both databases; non-trivial = overlapping commands and porcupine decided; distinct = distinct scheduler event sequence",
 		nontrivial: func(res *RunResult) bool {
+			if res.Plan != nil && res.Plan.Class == "twodb" {
+				return res.Extra["overlaps"] >= 1 && res.Extra["porcupine-ok"] == 1
+			}
 			return res.Extra["flush-with-others"] >= 1 && res.Extra["dbs-used"] >= 2
 		},
 		quickRuns:       3000,
